@@ -37,7 +37,7 @@ RULE = ("scripts = per-iteration sequences of queries. exhaustive over the alpha
         "before a length query (or the reverse) in one iteration.")
 
 ALPHA6 = ["L", "N", "P", "T", "R", "Cx"]
-FULL = ALPHA6 + ["I", "J", "r", "F", "Y2", "Y3", "Y0", "C55", "D", "d"]
+FULL = ALPHA6 + ["I", "J", "r", "F", "Y1", "Y2", "Y3", "Y0", "C55", "C-", "C7_8", "D", "d"]
 LOOKAHEAD, LENGTH = {"N", "T"}, {"L", "R", "r"}
 
 
@@ -160,7 +160,9 @@ def ask_sync(cn, loop, q, item):
         if c == "Y":
             return cn.item(loop.cycle(*range(101, 101 + int(q[1:]))))
         if c == "C":
-            return cn.a(loop.changed(item if q == "Cx" else int(q[1:])))
+            if q == "Cx":
+                return cn.a(loop.changed(item))
+            return cn.a(loop.changed(*([] if q == "C-" else [int(v) for v in q[1:].split("_")])))
         if c == "D":
             return cn.a(loop.depth)
         if c == "d":
@@ -286,10 +288,21 @@ def line_L(k, f, d0, xs, script):
 TQ = {"L": "loop.length|a", "I": "loop.index0|a", "J": "loop.index|a", "R": "loop.revindex|a", "r": "loop.revindex0|a",
       "F": "loop.first|a", "T": "loop.last|a", "P": "loop.previtem|it", "N": "loop.nextitem|it",
       "Y2": "loop.cycle(101, 102)|it", "Y3": "loop.cycle(101, 102, 103)|it", "Cx": "loop.changed(x)|a",
-      "C55": "loop.changed(55)|a", "D": "loop.depth|a", "d": "loop.depth0|a"}
+      "C55": "loop.changed(55)|a", "C-": "loop.changed()|a", "C7_8": "loop.changed(7, 8)|a", "Y1": "loop.cycle(101)|it", "D": "loop.depth|a", "d": "loop.depth0|a"}
 FILTERS = {"-": "", "o": " if x", "e": " if not x", "n": " if x is none and x"}
 
 
+WRAPS = {
+    "scoped": "{% if 1 %}{% block qq scoped %}CHAIN{% endblock %}{% endif %}",
+    "callbody": "{% macro w_() %}{{ caller() }}{% endmacro %}{% call w_() %}CHAIN{% endcall %}",
+    "macrobody": "{% macro w2_() %}CHAIN{% endmacro %}{{ w2_() }}",
+    "filterblock": "{% filter string %}CHAIN{% endfilter %}",
+    "setblock": "{% set s_ %}CHAIN{% endset %}{{ s_ }}",
+    "with": "{% with w3_ = 1 %}CHAIN{% endwith %}",
+    "ifbranch": "{% if true %}CHAIN{% endif %}",
+    "elsebranch": "{% if false %}no{% else %}CHAIN{% endif %}",
+    "autoescape": "{% autoescape false %}CHAIN{% endautoescape %}",
+}
 PRELUDES = ["", "{% macro mm(loop) %}{% endmacro %}", "{% with loop = 5 %}{% endwith %}",
             "{% macro mm(a, loop=1) %}{{ loop }}{% endmacro %}", "{% macro mm2() %}{{ caller(1) }}{% endmacro %}{% call(loop) mm2() %}{% endcall %}"]
 
@@ -306,9 +319,10 @@ def template_source(script, flt, prelude=0, scoped_wrap=False, unpack=False):
     if branches:
         body += "{% endif %}"
     if scoped_wrap and branches:
-        # the only mentions of `loop` sit in a scoped block that is not a direct child of the loop body
+        # the only mentions of `loop` sit inside a nested construct of the loop body (scoped_wrap: True = a scoped
+        # block below an if, or the name of another construct)
         chain = body[len(PRELUDES[prelude]):]
-        body = PRELUDES[prelude] + "{% if 1 %}{% block qq scoped %}" + chain + "{% endblock %}{% endif %}"
+        body = PRELUDES[prelude] + WRAPS["scoped" if scoped_wrap is True else scoped_wrap].replace("CHAIN", chain)
     return ("{% for x" + (", u_" if unpack else "") + " in xs" + FILTERS[flt] + " %}{{ x|iid }}:" + body
             + "|{% else %}ELSE{% endfor %}")
 
@@ -646,7 +660,7 @@ def run(ctx):
         mode = "async" if j % 2 else "sync"
         kind = ctx.rng.choice(["list", "tuple", "iter", "gen", "onlyiter", "hinted"] + (["agen", "aiterable"] if mode == "async" else []))
         tcases.append({"via": "template/" + mode, "iterable": kind, "items": xs, "script": script, "filter": flt, "depth0": 0,
-                       "prelude": ctx.rng.choice([0, 0, 0, 1, 2, 3, 4]), "scoped_wrap": ctx.rng.random() < 0.2,
+                       "prelude": ctx.rng.choice([0, 0, 0, 1, 2, 3, 4]), "scoped_wrap": ctx.rng.choice([False, False, False, False, True] + sorted(WRAPS)),
                        "unpack": ctx.rng.random() < 0.2, "axis": ctx.rng.choice(AXES)})
     tlines = [line_L("U" if c["filter"] != "-" else SIZED[c["iterable"]], c["filter"], 0, c["items"], c["script"]) for c in tcases]
     tout = ctx.driver("loop", tlines)
